@@ -91,6 +91,21 @@ func NumLit(r *big.Rat) Value {
 	return Opaque("num:" + r.RatString())
 }
 
+// IsHugeCount: a non-negative integer literal beyond int64 (a row count that
+// restricts nothing).
+func IsHugeCount(v Value) bool {
+	o, ok := v.(Opaque)
+	if !ok || !strings.HasPrefix(string(o), "num:") || len(o) < 5 {
+		return false
+	}
+	for _, c := range string(o)[4:] {
+		if c < '0' || c > '9' {
+			return false
+		}
+	}
+	return true
+}
+
 // Truth is SQL truthiness: known=false for NULL.
 func Truth(v Value) (val, known bool) {
 	switch v := v.(type) {
